@@ -64,7 +64,9 @@ class C15(Check):
                    'frames fit the prefix size (len < 2**(8*prefix_size))']
     ANCHORS = ['rxsci/framing/line.py', 'rxsci/framing/length_prefix.py']
     REQUIRED_TAGS = ['large-frames-of-exactly-the-same-size', 'reentrant-consumer', 'item-is-a-framed-batch-cut-on-its-record-boundaries', 'line', 'lp1', 'lp2', 'lp4', 'lp8', 'little', 'big', 'empties', 'trunc',
-                     'cut-in-prefix', 'cut-in-frame', 'empty-list', 'empty-item', 'stream>64KiB']
+                     'cut-in-prefix', 'cut-in-frame', 'empty-list', 'empty-item', 'stream>64KiB', 'chunks-as-bytearray', 'chunks-as-memoryview']
+
+    REQUIRED_OBSERVED = ['triples_of_staggered_subscriptions', 'bytes_like_runs']
 
     _ops = {}
 
@@ -282,11 +284,38 @@ class C15(Check):
             return out.fail('unframe-events-after-completion', chunks=chunks)
         if got.out != expected or [type(x) for x in got.out] != [type(x) for x in expected]:
             return out.fail('unframe-mismatch', expected=expected, got=got.out, chunks=chunks)
+        if kind != 'line':
+            # the same chunks as bytearray objects (mutable: recv_into / readinto producers) or as memoryview slices of one
+            # buffer (zero-copy re-chunking), consumed TWICE as the same objects (replay / retry of a cold source): the frames
+            # are the same bytes objects' worth, and the library has not changed the chunks it was handed
+            ct = chunking.BYTES_LIKE[(len(cuts) + len(items) + len(data)) % 3]
+            if ct != 'bytes':
+                out.tags.append('chunks-as-' + ct)
+                alt = chunking.bytes_like(chunks, ct)
+                before = chunking.frozen(alt)
+                for turn in (1, 2):
+                    g = subscribe(rx.from_(alt).pipe(un), Snap())
+                    out.observed['bytes_like_runs'] += 1
+                    if chunking.frozen(alt) != before:
+                        return out.fail('unframe-changed-the-chunks-it-was-given', chunk_type=ct, before=before, after=chunking.frozen(alt))
+                    if g.err is not None or not g.done or [bytes(x) for x in g.out] != expected:
+                        return out.fail('unframe-mismatch-on-%s-chunks' % ct, subscription=turn, expected=expected, got=g.out, error=repr(g.err), chunks=before)
+                alt_items = chunking.bytes_like(items, ct)
+                before = chunking.frozen(alt_items)
+                g = subscribe(rx.from_(alt_items).pipe(fr), Snap())
+                if chunking.frozen(alt_items) != before:
+                    return out.fail('frame-changed-the-items-it-was-given', chunk_type=ct)
+                if g.err is not None or not g.done or b''.join(bytes(x) for x in g.out) != stream:
+                    return out.fail('frame-mismatch-on-%s-items' % ct, error=repr(g.err), got=[bytes(x) for x in g.out])
         if len(stream) <= 4096:
             from ..progs import twin_subscriptions
             t = twin_subscriptions(lambda src: src.pipe(un), chunks, out, 'unframe', lambda xs: list(xs))
             if t is not None and t != expected:
                 return out.fail('unframe-mismatch-with-two-live-subscribers', expected=expected, got=t, chunks=chunks)
+            from ..progs import staggered_subscriptions
+            t = staggered_subscriptions(lambda src: src.pipe(un), chunks, out, 'unframe', lambda xs: list(xs))
+            if t is not None and t != expected:
+                return out.fail('unframe-mismatch-with-staggered-streams-through-one-operator', expected=expected, got=t, chunks=chunks)
         if len(stream) <= 4096 and expected:
             # A consumer that, while it is handed a frame, runs ANOTHER unframing of the same kind to completion
             # (nested framing, a flat_map over framed payloads): the parse state of the outer subscription must not
